@@ -167,9 +167,10 @@ Proof.
 Qed.
 
 (* ---------- order of the effects of `local v1, .., vn = e1, .., em` (VarDecl.v) ---------- *)
-Lemma vardecl_order_refuted : ~ vardecl_order_src_full vardecl_policy.
-Proof. intro F. apply vd_src_iff in F. destruct F as [F _]. discriminate F. Qed.
+(* since /repo d685d37 and f54f9c0 both kinds of statements go to defemitter (scraped): source order *)
+Lemma vardecl_order_src : vardecl_order_src_full vardecl_policy.
+Proof. apply vd_src_iff. split; reflexivity. Qed.
 Example vardecl_witnesses :
-  vd_effects vardecl_policy false wit_dead_later = [2%nat; 1%nat] /\ src_effects wit_dead_later = [1%nat; 2%nat] /\
-  vd_effects vardecl_policy false wit_asgnret = [2%nat; 1%nat] /\ src_effects wit_asgnret = [1%nat; 2%nat].
+  vd_effects vardecl_policy false wit_dead_later = src_effects wit_dead_later /\
+  vd_effects vardecl_policy false wit_asgnret = src_effects wit_asgnret /\ src_effects wit_asgnret = [1%nat; 2%nat].
 Proof. repeat split; reflexivity. Qed.
